@@ -41,3 +41,36 @@ package xlsx
 //@   property C15
 //@   flags callsites
 //@   callsite WriteString(s) requires cell_or_structure: s == "|" || s == " " || s == " |" || s == "\n" || s == "---|" || (forall k int :: {s[k]} 0 <= k && k < len(s) ==> s[k] != 10 && (s[k] == '|' ==> k >= 1 && s[k-1] == 92))
+
+// ---- C18: worksheets are presented in workbook order ----
+//@ func (*Reader) parseWorksheets results (err)
+//@   property C18
+//@   ensures workbook_unchanged: r.workbook == old(r.workbook)
+//@   ensures count: !err ==> len(r.sheets) <= len(r.workbook.Sheets.Sheet) && len(r.sheets) > 0
+//@   ensures workbook_order: !err ==> forall a int, b int :: {r.sheets[a], r.sheets[b]} 0 <= a && a < b && b < len(r.sheets) ==> r.sheets[a].Index < r.sheets[b].Index
+//@   ensures declared_names: !err ==> forall k int :: {r.sheets[k]} 0 <= k && k < len(r.sheets) ==> 0 <= r.sheets[k].Index && r.sheets[k].Index < len(r.workbook.Sheets.Sheet) && r.sheets[k].Name == r.workbook.Sheets.Sheet[r.sheets[k].Index].Name
+//@   loop 0:
+//@     invariant r.workbook == old(r.workbook) && len(r.sheets) <= $i
+//@     invariant forall a int, b int :: {r.sheets[a], r.sheets[b]} 0 <= a && a < b && b < len(r.sheets) ==> r.sheets[a].Index < r.sheets[b].Index
+//@     invariant forall k int :: {r.sheets[k]} 0 <= k && k < len(r.sheets) ==> 0 <= r.sheets[k].Index && r.sheets[k].Index < $i && r.sheets[k].Name == r.workbook.Sheets.Sheet[r.sheets[k].Index].Name
+
+//@ func (*Reader) parseWorksheet results (res, err)
+//@   property C18, C17
+//@   flags nosafety, readonly
+//@   ensures identity: !err ==> res.Name == name && res.Index == index
+//@   loop 0:
+//@     invariant same(sheet.Name, name) && sheet.Index == index
+//@   loop 3:
+//@     invariant same(sheet.Name, name) && sheet.Index == index
+//@   loop 4:
+//@     invariant same(sheet.Name, name) && sheet.Index == index
+//@   loop 5:
+//@     invariant same(sheet.Name, name) && sheet.Index == index
+//@   loop 6:
+//@     invariant same(sheet.Name, name) && sheet.Index == index
+//@   loop 7:
+//@     invariant same(sheet.Name, name) && sheet.Index == index
+//@   loop 8:
+//@     invariant same(sheet.Name, name) && sheet.Index == index
+//@   loop 9:
+//@     invariant same(sheet.Name, name) && sheet.Index == index
